@@ -111,6 +111,15 @@ def spec_c11(h, segs, extras, states):
             if not any(o[0] == "tx" and o[1] == tid for o in here):
                 fails.append(("after re-establishment the start-master request is sent again",
                               f"nothing sent on transport {tid} when it was established at t={t}"))
+    # --- a peer that stalls in the middle of a frame is detected within READER_TIMEOUT -----------------------
+    for i, e in enumerate(events[:len(extras)]):
+        if e.split(":")[0] == "S" and states[i]["c"] == "1" and states[i]["p"] == "1":
+            t_s = int(states[i]["t"])
+            later_input = any(x.split(":")[0].split("~")[0] in ("F", "X", "XM", "S", "Z") for x in events[i + 1:len(extras)])
+            if t_end >= t_s + RT and not later_input:
+                if not any(name == "wclose" and t_s <= t <= t_s + RT for (_, t, name, *_) in outs):
+                    fails.append(("no data within the read timeout is detected (the peer stalled inside a frame)",
+                                  f"the peer stalled after {e.split(':')[1]} bytes of a frame at t={t_s}; no loss was handled by t={t_s + RT}"))
     # --- no growth of background tasks ---------------------------------------------------------
     for i, x in enumerate(extras):
         c = x["classes"]
